@@ -375,6 +375,15 @@ def handler(c):
         universe = mk_universe(c['cfg']['universe'])
         reused, _ = run_session(c, shared_ds=([mine], BacktestDataHandler(universe, data_sources=[mine])))
         return {'first': fresh, 'second': reused}
+    if c.get('mode') == 'default_after_other':
+        c_exp = dict(c)
+        c_exp.pop('default_handler', None)
+        fresh, _ = run_session(c_exp)
+        c_o = dict(c)
+        c_o['market'] = c['market2']
+        other, _ = run_session(c_o)
+        again, _ = run_session(c)
+        return {'first': fresh, 'second': again, 'other_ok': other['init']}
     if c.get('mode') == 'pair':
         a, _ = run_session(c)
         c2 = dict(c)
